@@ -31,6 +31,7 @@ type mrule struct {
 	present bool
 	ver     string
 	sched   bool // a scheduled rule: runs for {"trigger!":id}, never for ordinary events
+	on      string // the event id its `when` matches ("" = its own id)
 }
 
 type world struct {
@@ -116,13 +117,24 @@ func (w *world) apply(r *rep.Report, o op) {
 	case "add":
 		_, err := loc.AddRule(ctx, o.Id, ruleMap(o.Id, o.Ver))
 		if check(err) {
-			w.rules[o.Loc][o.Id] = &mrule{true, o.Ver, false}
+			w.rules[o.Loc][o.Id] = &mrule{true, o.Ver, false, ""}
+			delete(w.deps, o.Loc+"/"+o.Id)
+		}
+	case "addAlt":
+		// the id is (re-)added with the `when` of the OTHER id: what it listened to before is gone entirely
+		other := "r1"
+		if o.Id == "r1" {
+			other = "r2"
+		}
+		_, err := loc.AddRule(ctx, o.Id, ruleMap(other, o.Ver))
+		if check(err) {
+			w.rules[o.Loc][o.Id] = &mrule{true, o.Ver, false, other}
 			delete(w.deps, o.Loc+"/"+o.Id)
 		}
 	case "addSched":
 		_, err := loc.AddRule(ctx, o.Id, schedRuleMap(o.Id, o.Ver))
 		if check(err) {
-			w.rules[o.Loc][o.Id] = &mrule{true, o.Ver, true}
+			w.rules[o.Loc][o.Id] = &mrule{true, o.Ver, true, ""}
 			delete(w.deps, o.Loc+"/"+o.Id)
 		}
 	case "addDep":
@@ -131,7 +143,7 @@ func (w *world) apply(r *rep.Report, o op) {
 		rm["deleteWith"] = []interface{}{"dep"}
 		_, err := loc.AddRule(ctx, o.Id, rm)
 		if check(err) {
-			w.rules[o.Loc][o.Id] = &mrule{true, o.Ver, false}
+			w.rules[o.Loc][o.Id] = &mrule{true, o.Ver, false, ""}
 			w.deps[o.Loc+"/"+o.Id] = true
 		}
 	case "depTarget":
@@ -267,8 +279,14 @@ func (w *world) expectFire(at, id string) []string {
 		srcs = append(srcs, "parent")
 	}
 	for _, s := range srcs {
-		if ru, ok := w.rules[s][id]; ok && ru.present && !ru.sched && !w.flags[at][id] {
-			out = append(out, ru.ver)
+		for rid, ru := range w.rules[s] {
+			on := ru.on
+			if on == "" {
+				on = rid
+			}
+			if on == id && ru.present && !ru.sched && !w.flags[at][rid] {
+				out = append(out, ru.ver)
+			}
 		}
 	}
 	sort.Strings(out)
@@ -466,6 +484,9 @@ func main() {
 						}
 					}
 				}
+			case k == 6 && !withParent:
+				ver++
+				o.Op, o.Ver = "addAlt", fmt.Sprintf("v%d", ver)
 			case k == 7 && !withParent:
 				ver++
 				o.Op, o.Ver = "addSched", fmt.Sprintf("v%d", ver)
